@@ -24,11 +24,11 @@ VERUS_UNITS = {
 # --no-overflow-checks silences CBMC's own float NaN/overflow checks (NaN and inf are values, C05); rustc's
 # overflow assertions, which C01/C06/C09 rely on, stay on (canary in every group)
 KANI_GROUPS = {
-    'f64-ast': dict(mods=[('src/eval_f64/mod.rs', 'kani/f64_ast.rs', 'verif_ast')], flags=['--no-overflow-checks', '-Z', 'stubbing'], timeout=400, jobs=14),
+    'f64-ast': dict(mods=[('src/eval_f64/mod.rs', 'kani/f64_ast.rs', 'verif_ast')], flags=['--no-overflow-checks', '-Z', 'stubbing'], timeout=900, jobs=14),
     'i64-ast': dict(mods=[('src/eval_i64/mod.rs', 'kani/i64_ast.rs', 'verif_ast')], flags=['--no-overflow-checks', '-Z', 'stubbing'], timeout=600, jobs=12),
     'tables': dict(mods=[('src/utils/mod.rs', 'kani/tables.rs', 'verif_tables')], flags=[], timeout=300, jobs=2),
     'complex-ast': dict(mods=[('src/eval_complex/mod.rs', 'kani/complex_ast.rs', 'verif_ast')], flags=['--no-overflow-checks'], timeout=600, jobs=6),
-    'number-ast': dict(mods=[('src/eval_number/mod.rs', 'kani/number_ast.rs', 'verif_ast')], flags=['--no-overflow-checks', '-Z', 'stubbing'], timeout=400, jobs=14),
+    'number-ast': dict(mods=[('src/eval_number/mod.rs', 'kani/number_ast.rs', 'verif_ast')], flags=['--no-overflow-checks', '-Z', 'stubbing'], timeout=900, jobs=14),
     'number-l4': dict(mods=[('src/eval_number/mod.rs', 'kani/number_l4.rs', 'verif_l4')], flags=['--no-overflow-checks'], timeout=600, jobs=4),
 }
 
@@ -86,7 +86,7 @@ PLAN = {
                 unclaimed=['stack exhaustion on deeply nested input (A-stack)']),
     'C02': dict(verus=ALL_V, kani=['f64-ast', 'number-ast'], level='proof', assumptions=AST_ASSUME + F64_ASSUME + PARSER_ASSUME,
                 unclaimed=[
-                           'the global bound 4096 + 256*len is derived on paper from the per-function measures, not machine-checked']),
+                           'the sum of the three machine-checked bounds (tokenizer: one token per >= 1 character; parser: <= 8 * tokens + 9 steps; evaluator: <= 2 * tokens calls, loops capped) into the single figure 4096 + 256*len is arithmetic on paper', 'loop iterations inside one Tokenizer::next call (bounded by the characters it consumes: its decreases measure) are not counted by a counter']),
     'C10': dict(verus=ALL_V, kani=['i64-ast', 'f64-ast', 'number-ast', 'number-l4'], level='proof', assumptions=AST_ASSUME + F64_ASSUME + PARSER_ASSUME,
                 unclaimed=['numerical accuracy of libm-backed functions, gamma, Lambert W (A-libm: which primitive is applied to which operands is proved, not what it computes)']),
     'C11': dict(verus=ALL_V, kani=['f64-ast', 'number-ast'], level='proof', assumptions=AST_ASSUME + F64_ASSUME + PARSER_ASSUME,
@@ -97,7 +97,7 @@ PLAN = {
                 unclaimed=[]),
     'C14': dict(verus=ALL_V, kani=['f64-ast', 'number-ast'], level='proof', assumptions=AST_ASSUME + F64_ASSUME + PARSER_ASSUME,
                 unclaimed=[]),
-    'C05': dict(verus=['f64-ast', 'f64-parser', 'f64-glue'], kani=['f64-ast'], level='proof',
+    'C05': dict(verus=['f64-ast', 'f64-parser', 'f64-glue', 'f64-tok'], kani=['f64-ast'], level='proof',
                 assumptions=F64_ASSUME + KANI_ASSUME + ['constants pi and e: the parser inserts std::f64::consts::PI / E (T8: their bit patterns are not re-proved)'],
                 unclaimed=['value of / and % on the full operand domain (bounded stand-ins only; full-domain division is tried in the thorough tier)',
                            'numerical behaviour of the platform pow / sqrt (A-libm)']),
@@ -139,12 +139,12 @@ PLAN = {
                 unclaimed=[]),
 
     'C06': dict(
-        verus=['i64-ast'], kani=['i64-ast'],
+        verus=['i64-ast', 'i64-tok'], kani=['i64-ast'],
         level='proof',
         assumptions=[
             'A-std-int: assumed contracts of i64::checked_neg/checked_abs/checked_pow/unsigned_abs/signum/wrapping_rem (vstd has none); vstd contracts of checked_add/sub/mul/div',
             'T1 (error type), T2 (derived Clone is structural), T5, T12, T13, T14 extraction rewrites (DESIGN 4.2)',
-            'literal overflow in the tokenizer is decided by the tokenizer unit, not here',
+            'T16: str::parse::<i64> is an uninterpreted partial function of the literal text (the tokenizer hands it the maximal digit run and rejects the literal when it returns None)',
         ],
         unclaimed=[],
     ),
@@ -175,7 +175,7 @@ LEVEL_TEXT = {
                 '(rustc overflow assertions and CBMC pointer / bounds checks on, all operand bit patterns). Two routines of eval_decimal are known findings.',
     'C02': _V + 'owned obligations = the decreases clauses of every loop and every (mutual) recursion in the tokenizers (measure: characters left; every token consumes at least one), the parsers (measure: tokens left), '
                 'all five evaluators (structural recursion, Euclid, factorial with its caps 170 / 20, Lambert W capped at 128 iterations, ilog capped at 64 steps); Kani cross-checks the caps of eval_f64 and eval_number '
-                'with unwinding assertions over the full operand domain. The global figure 4096 + 256*len is derived on paper from these per-function measures.',
+                'with unwinding assertions over the full operand domain. Work is bounded, not only finite: every evaluator carries a ghost step counter with the contract `calls of eval <= nodes of the tree` (cost), and every parser method carries a size clause from which Parser::parse ensures `nodes < 2 * tokens` (so a parser that builds more than it reads, or an evaluator that evaluates a subtree twice, fails an obligation); every parser method carries a ghost step counter too, bounded by 8 per consumed token on success and by 8 * (tokens left) + 9 on every error path, so Parser::parse makes at most 8 * tokens + 9 method calls and loop iterations; the tokenizer consumes at least one character per token. Still on paper: adding the three bounds up to the constant 4096 + 256*len.',
     'C03': _V + 'every Parser method of the five evaluators refines a table-driven specification parser (Ok iff the spec parser accepts and the whole token stream is consumed); the tokenizers refine a lexical specification generated from the README vocabulary (a function name or alias is a token only directly before `(`, unknown characters and unknown words are rejected, Eof exactly at the end of input); '
                 'the public wrappers return Err iff the stripped text does not parse. Owned: parse (Eof), check_paren, argument-list methods, reject exits, wrapper.',
     'C04': _V + 'get_oper_prec equals the precedence table, generate_ast is precedence climbing with strict <, every binary / prefix / postfix / bracket arm builds the node and uses the operand level the tables give; '
@@ -189,7 +189,7 @@ LEVEL_TEXT = {
                 'eval_f64 and eval_number aggregates for any arity: min / max are the fold of the IEEE min / max (eval_number: of the comparison of the double values, keeping the argument) from the identity, avg is the left-to-right sum divided by the count, '
                 'med is NaN if any argument is NaN and the argument itself for one argument, a failing argument makes the aggregate fail; eval_decimal aggregates: error propagation and panic-freedom.',
     'C12': _V + 'implicit_multiply, its call sites and parse (Eof) refine the juxtaposition rule of the specification parser (trigger sets, operand level Multiplicative, node order, no literal after a literal, no product at @ / constants / superscripts / degree signs) in all five parsers.',
-    'C13': _V + 'the notation arms (floor/ceil brackets, mod/pow functions, superscripts, prefix +, redundant brackets) build the same nodes as their synonyms, by refinement to the tables, in all five parsers; alias spellings (sign / sgn / signum, trunc / truncate, med / median, asinh / arsinh .., w / lambert_w, pi / π) lex to the same token; the public wrappers hand exactly '
+    'C13': _V + 'the notation arms (floor/ceil brackets, mod/pow functions, superscripts, prefix +, redundant brackets) build the same nodes as their synonyms, by refinement to the tables, in all five parsers; a superscript run lexes to the exponent its digits spell (2¹⁰ = 2^10); alias spellings (sign / sgn / signum, trunc / truncate, med / median, asinh / arsinh .., w / lambert_w, pi / π) lex to the same token; the public wrappers hand exactly '
                 'the whitespace-stripped text to the parser; the alias nodes apply the same primitive (Kani).',
     'C14': _V + 'the `@` arm yields the leaf holding the stored placeholder and takes no part in implicit multiplication; Parser::new stores the placeholder; the wrappers pass Some(placeholder) and return the evaluator\'s value unchanged; '
                 'the leaf arm of every evaluator returns its payload bit for bit (Verus, all five; Kani f64 / number again).',
